@@ -302,17 +302,17 @@ func firstFrames(st []byte) string {
 	var out []string
 	for _, l := range lines {
 		l = strings.TrimSpace(l)
-		if strings.Contains(l, "otel-arrow/pkg") && strings.Contains(l, ".go:") {
-			if i := strings.Index(l, "otel-arrow/pkg"); i >= 0 {
-				l = l[i+len("otel-arrow/"):]
-			}
-			if i := strings.Index(l, " "); i > 0 {
-				l = l[:i]
-			}
-			out = append(out, l)
-			if len(out) >= 2 {
-				break
-			}
+		i := strings.Index(l, "/pkg/")
+		if i < 0 || !strings.Contains(l, ".go:") || strings.Contains(l, "/go/pkg/mod/") {
+			continue
+		}
+		l = l[i+1:]
+		if j := strings.Index(l, " "); j > 0 {
+			l = l[:j]
+		}
+		out = append(out, l)
+		if len(out) >= 3 {
+			break
 		}
 	}
 	return strings.Join(out, " < ")
@@ -522,6 +522,14 @@ func RunStream(em *Emitter, tr int, st *Stream) {
 			in = inputs[k-bs.Resend]
 		} else {
 			in = makeInput(sig, bs)
+		}
+		switch in.(type) { // a re-sent input keeps its own signal
+		case ptrace.Traces:
+			sig = "traces"
+		case plog.Logs:
+			sig = "logs"
+		case pmetric.Metrics:
+			sig = "metrics"
 		}
 		inputs = append(inputs, in)
 		before := marshal(in)
